@@ -495,27 +495,79 @@ func checkWSClose1002(c *Ctx, adv *ssa.Function) {
 		R.Check(ok, "C14.close1002", "websocket|NextReader|stops-after-error", P.Pos(nr.Pos()),
 			"no frame is read once readErr is set", "NextReader reads frames although a previous error is latched", nil)
 	}
-	// C14.cut
+	// C14.cut: the transport's io.EOF may reach the caller as io.EOF (= "message complete") only when nothing of the frame
+	// is outstanding AND the frame was the final one of its message; in every other case it becomes the unexpected-EOF
+	// error. Decided on the edges that by-pass the conversion.
 	if rd := P.Func("websocket", "(*messageReader).Read"); rd != nil {
-		ok := false
+		var conv *ssa.Store
 		core.EachInstr(rd, func(in ssa.Instruction) {
 			st, isSt := in.(*ssa.Store)
-			if !isSt || !strings.HasSuffix(core.Path(st.Addr), ".readErr") || core.Path(st.Val) != "websocket.errUnexpectedEOF" {
-				return
-			}
-			hasRem, hasEOF := false, false
-			for _, a := range core.GuardAtoms(st.Block()) {
-				if strings.HasSuffix(a.L, ".readRemaining") && a.Op == ">" && a.R == "0" {
-					hasRem = true
+			if isSt && strings.HasSuffix(core.Path(st.Addr), ".readErr") && core.Path(st.Val) == "websocket.errUnexpectedEOF" && conv == nil {
+				// the one that follows the transport read (the first in block order)
+				for _, a := range core.GuardAtoms(st.Block()) {
+					if a.R == "io.EOF" && a.Op == "==" {
+						conv = st
+					}
 				}
-				if a.R == "io.EOF" && a.Op == "==" {
-					hasEOF = true
+				if conv == nil {
+					for _, pr := range st.Block().Preds {
+						for i, s2 := range pr.Succs {
+							if s2 != st.Block() {
+								continue
+							}
+							for _, a := range core.EdgeAtoms(pr, i) {
+								if a.R == "io.EOF" && a.Op == "==" {
+									conv = st
+								}
+							}
+						}
+					}
 				}
 			}
-			ok = ok || (hasRem && hasEOF)
 		})
+		ok, why := conv != nil, "end of input inside a frame is never turned into the unexpected-EOF error"
+		if conv != nil && len(conv.Block().Succs) == 1 {
+			merge := conv.Block().Succs[0]
+			// every other way into the merge block: the error is not io.EOF, or the frame is complete and final
+			var visit func(b *ssa.BasicBlock, idx int, depth int)
+			visit = func(b *ssa.BasicBlock, idx int, depth int) {
+				notEOF, done, final := false, false, false
+				for _, a := range core.EdgeAtoms(b, idx) {
+					if a.R == "io.EOF" && a.Op == "!=" {
+						notEOF = true
+					}
+					if strings.HasSuffix(a.L, ".readRemaining") && a.R == "0" && (a.Op == "<=" || a.Op == "==") {
+						done = true
+					}
+					if strings.HasSuffix(a.L, ".readFinal") && a.Op == "is" {
+						final = true
+					}
+				}
+				if !(notEOF || (done && final)) {
+					ok = false
+					switch {
+					case !done:
+						why = "io.EOF is passed on although bytes of the frame are outstanding"
+					default:
+						why = "when the stream ends exactly at the end of a non-final frame (the transport delivered the frame's last bytes together with io.EOF) Read returns io.EOF, which callers take for the end of the message: the fragments received so far are delivered as a complete message"
+					}
+				}
+			}
+			for _, pr := range merge.Preds {
+				if pr == conv.Block() {
+					continue
+				}
+				for i, s2 := range pr.Succs {
+					if s2 == merge {
+						visit(pr, i, 0)
+					}
+				}
+			}
+		} else if conv != nil {
+			ok, why = false, "undecided: the conversion is not followed by a single merge point"
+		}
 		R.Check(ok, "C14.cut", "websocket|(*messageReader).Read|eof-inside-frame", P.Pos(rd.Pos()),
-			"end of input with frame bytes outstanding becomes the unexpected-EOF error", "end of input inside a frame is not turned into an error: a short message would look complete", nil)
+			"end of input becomes the unexpected-EOF error unless the frame is complete and final", why, nil)
 	}
 }
 
@@ -637,6 +689,67 @@ func checkWSCtlPayload(c *Ctx) {
 			})
 			R.Check(ok, "C14.ctlpayload", "websocket|advanceFrame|"+h+"-gets-payload", P.Pos(adv.Pos()), h+" receives the frame's payload", h+" is not called with the frame's payload", nil)
 		}
+	}
+	// the Close 1002 that reports a protocol error must itself be a legal control frame: 2 status bytes plus the
+	// diagnostic text must not exceed 125 bytes, whatever the peer sent. Every diagnostic is a constant or a constant
+	// joined with a short number; text taken from the peer's frame (close reason, payload) has no bound.
+	if hp := P.Func("websocket", "(*Conn).handleProtocolError"); R.Anchor(hp != nil, "C14.close1002", "websocket.(*Conn).handleProtocolError") {
+		var maxLen func(v ssa.Value, d int) (int, bool)
+		maxLen = func(v ssa.Value, d int) (int, bool) {
+			if d > 6 {
+				return 0, false
+			}
+			if sv, ok := core.ConstString(v); ok {
+				return len(sv), true
+			}
+			switch x := v.(type) {
+			case *ssa.BinOp:
+				if x.Op == token.ADD {
+					a, ok1 := maxLen(x.X, d+1)
+					b, ok2 := maxLen(x.Y, d+1)
+					return a + b, ok1 && ok2
+				}
+			case *ssa.Call:
+				if f := x.Call.StaticCallee(); f != nil {
+					switch core.FullName(f) {
+					case "strconv.Itoa", "strconv.FormatInt", "strconv.FormatUint":
+						return 20, true // at most a 64-bit number in decimal with sign (66 in base 2 is not used here: the base is checked below)
+					}
+				}
+			case *ssa.Phi:
+				m, okAll := 0, true
+				for _, e := range x.Edges {
+					l, ok := maxLen(e, d+1)
+					if !ok {
+						okAll = false
+					}
+					if l > m {
+						m = l
+					}
+				}
+				return m, okAll
+			}
+			return 0, false
+		}
+		nSites, bad := 0, ""
+		for _, fn := range P.ModuleFuncs("websocket") {
+			core.EachInstr(fn, func(in ssa.Instruction) {
+				call, ok := in.(*ssa.Call)
+				if !ok || call.Call.StaticCallee() != hp {
+					return
+				}
+				nSites++
+				l, ok := maxLen(call.Call.Args[1], 0)
+				if !ok {
+					bad = fmt.Sprintf("the diagnostic passed at %s contains text of unbounded length", P.InstrPos(call))
+				} else if l+2 > 125 {
+					bad = fmt.Sprintf("the diagnostic passed at %s can be %d bytes long", P.InstrPos(call), l)
+				}
+			})
+		}
+		R.Check(bad == "" && nSites >= 8, "C14.close1002", "websocket|handleProtocolError|diagnostic-fits-a-control-frame", P.Pos(hp.Pos()),
+			fmt.Sprintf("all %d protocol-error diagnostics are bounded so that the Close 1002 payload stays within 125 bytes", nSites),
+			bad+": the Close 1002 payload would exceed 125 bytes, WriteControl refuses it and no Close frame is sent for the violation", nil)
 	}
 	// a ping of the largest legal size (125 bytes) must be answerable: WriteControl writes a 125-byte control frame
 	lmax := newLayout(c, "C14.ctlpayload")
